@@ -61,7 +61,7 @@ contract(
     verify=False,
     assumed=True,
     bounded=("bounded/state_hashes.py", 40, 600),
-    props=["C13", "C03"],
+    props=["C13", "C03", "C05", "C10"],  # checkout re-stages the workspace through it (C05, C10)
     doc="[body not verified: bounded stand-in] for every requested path the returned dict holds the hash of that very path under `name` "
         "(state hits and fresh hashes merged by path); nothing is said about the ORDER of the returned dict",
 )
@@ -100,7 +100,7 @@ contract(
     modifies=lambda c: [("HashFileDB.objs", None), ("HashesCache.table", None), ("G.lfiles",), ("G.l444",), ("FileSystem.files", None), ("FileSystem.removed", None)],
     ensures=_bf_post,
     no_merge=True,
-    props=["C01", "C02", "C03"],
+    props=["C01", "C02", "C03", "C05", "C10"],
     doc="staging a directory's files: every file name is recorded with the digest of that very file, and the (path, oid) "
         "pairs handed to add() are aligned (Named is a call-site obligation)",
 )
@@ -120,7 +120,7 @@ contract(
     params={},
     assumed=True, verify=False,
     bounded=("bounded/roundtrip.py", 120, 2000),
-    props=["C02"],
+    props=["C02", "C05", "C10"],  # checkout re-stages the workspace through build() (C05, C10)
     doc="[bounded only] the end-to-end clause: stage -> transfer -> check out (object-level and index-level, every link type, both store "
         "classes, state on/off) recreates the relative paths and bytes; the reloaded listing, file count and size match",
 )
